@@ -565,7 +565,15 @@ impl TransactionBuilder {
     let mut offset = 0;
     for output in &transaction.output {
       if output.script_pubkey == self.recipient {
-        let slop = self.fee_rate.fee(Self::ADDITIONAL_OUTPUT_VBYTES);
+        // what `strip_value` compared the excess with: the dust limit of a
+        // change output plus the fee of adding that output to this
+        // transaction
+        let vbytes = self.estimate_vbytes();
+        let slop = self
+          .fee_rate
+          .fee(vbytes + Self::ADDITIONAL_OUTPUT_VBYTES)
+          .checked_sub(self.fee_rate.fee(vbytes))
+          .unwrap();
         let change_dust = self
           .change_addresses
           .iter()
